@@ -60,6 +60,7 @@ type vfC11DocState struct {
 	Grant   string            // "", "user", "role", "ghost", "roleOf"
 	Atts    map[string]string // attachment name -> content
 	Deleted bool
+	Big     bool // body larger than the inline limit for non-winning revision bodies
 }
 
 func (s vfC11DocState) String() string {
@@ -70,7 +71,11 @@ func (s vfC11DocState) String() string {
 	if s.Deleted {
 		return "del"
 	}
-	return fmt.Sprintf("{v%d %v g=%s att=%v}", s.V, s.Chans, s.Grant, atts)
+	big := ""
+	if s.Big {
+		big = " big"
+	}
+	return fmt.Sprintf("{v%d %v g=%s att=%v%s}", s.V, s.Chans, s.Grant, atts, big)
 }
 
 type vfC11Scenario struct {
@@ -117,6 +122,7 @@ func vfC11GenDocState(rt *rapid.T, label string, allowDelete bool) vfC11DocState
 		V:     rapid.IntRange(0, 99).Draw(rt, label+".v"),
 		Chans: rapid.SampledFrom([][]string{{"A"}, {"B"}, {"A", "B"}, {}}).Draw(rt, label+".chans"),
 		Grant: rapid.SampledFrom([]string{"", "", "user", "role", "ghost", "roleOf"}).Draw(rt, label+".grant"),
+		Big:   rapid.IntRange(0, 2).Draw(rt, label+".big") == 0,
 	}
 	switch rapid.IntRange(0, 4).Draw(rt, label+".atts") {
 	case 0:
@@ -222,6 +228,7 @@ type vfC11World struct {
 	curRev string
 	sessionID string
 	excluded  []string // known-finding signatures met while checking
+	skipLeaves bool    // leave out the "every leaf readable" clause (known finding)
 }
 
 func (wd *vfC11World) close() {
@@ -232,6 +239,9 @@ func (wd *vfC11World) close() {
 
 func vfC11Body(s vfC11DocState) Body {
 	b := Body{"v": s.V, "channels": s.Chans}
+	if s.Big {
+		b["pad"] = strings.Repeat("p", MaximumInlineBodySize+50)
+	}
 	switch s.Grant {
 	case "user":
 		b["gUsers"] = []string{"alice"}
@@ -631,6 +641,7 @@ func vfC11MakeOp(sc vfC11Scenario) vfC11Op {
 
 func (wd *vfC11World) checkDoc(id, rev string, st vfC11DocState, mustBeCurrent bool, grants bool) string {
 	ctx := wd.env.Ctx
+	skipLeaves := wd.skipLeaves
 	// a cold read: what a later request on any node would see
 	wd.env.DBC.FlushRevisionCacheForTest()
 	doc, err := wd.env.Coll.GetDocument(ctx, id, DocUnmarshalAll)
@@ -675,6 +686,16 @@ func (wd *vfC11World) checkDoc(id, rev string, st vfC11DocState, mustBeCurrent b
 		data, err := DecodeAttachment(meta["data"])
 		if err != nil || !bytes.Equal(data, []byte(content)) {
 			return fmt.Sprintf("revision %s: attachment %q reads back %q (%v), written %q", rev, n, data, err, content)
+		}
+	}
+	if !skipLeaves {
+		for _, leaf := range doc.History.GetLeaves() {
+			if li := doc.History[leaf]; li == nil || li.Deleted {
+				continue
+			}
+			if _, err := wd.env.Coll.Get1xRevBody(ctx, id, leaf, false, nil); err != nil {
+				return fmt.Sprintf("leaf revision %s of %s (current %s) cannot be read any more: %v", leaf, id, doc.GetRevTreeID(), err)
+			}
 		}
 	}
 	if doc.GetRevTreeID() == rev {
@@ -990,7 +1011,8 @@ const (
 	vfC11SigPrincSeq = "principal-update-sequence-not-released"
 	vfC11SigRoleSeq  = "delete-role-sequence-not-released"
 	vfC11SigCasSave  = "swallowed-save-failure-in-casUpdatePrincipal"
-	vfC11SigEmail    = "principal-saved-before-email-index-failure"
+	vfC11SigEmail    = "principal-and-email-index-written-non-atomically"
+	vfC11SigRevBody  = "swallowed-revision-body-persist-failure"
 	vfC11SigExtDel   = "external-delete-imported-as-live-revision-by-write"
 )
 
@@ -1071,7 +1093,7 @@ func vfC11Execute(t testing.TB, sc vfC11Scenario, op vfC11Op, faults map[int]vs.
 	s0, s1 := vfC11Counter(pre), vfC11Counter(post)
 
 	// structural signatures of the listed candidate defects
-	relaxGrant, relaxSeq, relaxVisible, relaxState := "", "", "", ""
+	relaxGrant, relaxSeq, relaxVisible, relaxState, relaxLeaves := "", "", "", "", ""
 	for _, o := range injected {
 		if o.Type == vs.OpSubdocInsert && vfC11IsPrincKey(o.Key) && !o.Applied {
 			relaxGrant = vfC11SigInval
@@ -1086,10 +1108,17 @@ func vfC11Execute(t testing.TB, sc vfC11Scenario, op vfC11Op, faults map[int]vs.
 			}
 			// the same two-step save under "applied, then timeout": the principal document is written,
 			// the email index document is never attempted
-			hasEmail := sc.PUpd.Email != "" || (sc.Kind == "user-update" && sc.AliceEmail)
+			hasEmail := (sc.Kind != "user-delete" && sc.PUpd.Email != "") || (sc.Kind != "user-create" && sc.AliceEmail)
 			if hasEmail && o.Type == vs.OpWriteCas && vfC11IsPrincKey(o.Key) && o.Action == vs.TimeoutAfter {
 				relaxState = vfC11SigEmail
 			}
+			// ... and deleting a user removes the email index document before the user document
+			if hasEmail && sc.Kind == "user-delete" && o.Type == vs.OpDelete && vfC11IsPrincKey(o.Key) && !o.Applied {
+				relaxState = vfC11SigEmail
+			}
+		}
+		if o.Type == vs.OpAddRaw && strings.HasPrefix(o.Key, base.RevBodyPrefix) && !o.Applied {
+			relaxLeaves = vfC11SigRevBody
 		}
 		if sc.Kind == "role-delete" {
 			relaxSeq = vfC11SigRoleSeq
@@ -1136,6 +1165,7 @@ func vfC11Execute(t testing.TB, sc vfC11Scenario, op vfC11Op, faults map[int]vs.
 			break
 		}
 		grants := !gate(relaxGrant)
+		wd.skipLeaves = gate(relaxLeaves)
 		if msg := op.check(wd, run.res, grants); msg != "" {
 			return run, "operation reported success but " + msg + " [" + desc + "]", nil
 		}
